@@ -8,7 +8,7 @@ static void build_rich() {
     std::vector<GCase> all;
     build_family(all, "all", true);
     const std::pair<const char*, const char*> pick[] = {
-        {"xsd-annotation", "all positions + synthetic [tns]"},
+        {"xsd-annotation", "all positions body 2 [tns]"},
         {"xsd-namespace-import", "efd=qualified afd=unqualified mode1 [tns]"},
         {"mixed-pool", "variant 3"},
         {"dtd-entity-notation", "0,1,2,3,4,5,6,7,8,"},
